@@ -1391,10 +1391,21 @@ class _Subst(ast.NodeTransformer):
             return copy.deepcopy(self.st.locals[n.id])
         return n
 
+    def visit_Call(self, n):
+        # the method name of a call is not a load of state: visit the receiver and the arguments only
+        if isinstance(n.func, ast.Attribute):
+            n.func.value = self.visit(n.func.value)
+        else:
+            n.func = self.visit(n.func)
+        n.args = [self.visit(a) for a in n.args]
+        for k in n.keywords:
+            k.value = self.visit(k.value)
+        return n
+
     def visit_Attribute(self, n):
         n = self.generic_visit(n)
         if isinstance(n.ctx, ast.Load):
-            key = term(n)
+            key = plain(term(n))
             if key in self.st.heap:
                 return copy.deepcopy(self.st.heap[key])
             if isinstance(n.value, ast.Name) and n.value.id == 'self' and self.ev.x.ctx is not None:
